@@ -360,7 +360,40 @@ pub fn render(toks: &[GTok], rng: &mut Rng) -> (String, Vec<(usize, usize)>) {
     (s, spans)
 }
 
+/// Nested lists: a hand-written (`@vec`, left- or right-recursive) list whose element refers back to the list, so that
+/// the vector type is recursive (`Vec<Box<_>>` or a boxed variant) - start rule either the list or the element.
+pub fn gen_nested_lists(rng: &mut Rng) -> AstG {
+    let mk = |i: usize| ATerm { name: POOL[i].0.into(), lit: POOL[i].1.map(|s| s.to_string()), regex: POOL[i].2.into(), prefix: POOL[i].3.into() };
+    let terms: Vec<ATerm> = vec![mk(1), mk(0), mk(3), mk(4), mk(5)]; // Num Id LP RP Comma
+    let plain = |s: Sym| AItem { sym: s, assign: None, rep: None };
+    let list_first = rng.chance(0.5);
+    let (li, ei) = if list_first { (0usize, 1usize) } else { (1, 0) };
+    let (l, e) = (Sym::N(li), Sym::N(ei));
+    let right = rng.chance(0.6);
+    let with_sep = rng.chance(0.3);
+    let mut rec = if right { vec![plain(e)] } else { vec![plain(l)] };
+    if with_sep {
+        rec.push(plain(Sym::T(4)));
+    }
+    rec.push(if right { plain(l) } else { plain(e) });
+    let mut lalts = vec![AAlt { items: rec, kind: None }, AAlt { items: vec![plain(e)], kind: None }];
+    if !with_sep && rng.chance(0.3) {
+        lalts.push(AAlt { items: vec![], kind: None });
+    }
+    let mut ealts = vec![AAlt { items: vec![plain(Sym::T(0))], kind: None }, AAlt { items: vec![plain(Sym::T(2)), plain(l), plain(Sym::T(3))], kind: None }];
+    if rng.chance(0.5) {
+        ealts.push(AAlt { items: vec![plain(Sym::T(1))], kind: None });
+    }
+    let lr = ARule { name: "Items".into(), vec_ann: true, alts: lalts };
+    let er = ARule { name: "Item".into(), vec_ann: false, alts: ealts };
+    let rules = if list_first { vec![lr, er] } else { vec![er, lr] };
+    AstG { terms, rules, flag_term: None }
+}
+
 pub fn gen_ast(rng: &mut Rng) -> AstG {
+    if rng.chance(0.12) {
+        return gen_nested_lists(rng);
+    }
     let n = rng.range(1, 5);
     let k = rng.range(3, POOL.len() - 1);
     let mut idx: Vec<usize> = (0..POOL.len() - 1).collect();
